@@ -52,6 +52,7 @@ func (a *archetypeAccess) getLayout(id ID) *layout {
 type layout struct {
 	pointer  unsafe.Pointer // Pointer to the first element in the component column.
 	itemSize uint32         // Component/step size
+	hasPtr   bool           // Whether the component type contains pointers.
 }
 
 // Get returns a pointer to the item at the given index.
@@ -105,6 +106,7 @@ func (a *archetype) Init(node *archNode, data *archetypeData, index int32, forSt
 		a.layouts[id.id] = layout{
 			a.buffers[i].Addr().UnsafePointer(),
 			uint32(size),
+			hasPointers(tp),
 		}
 		a.indices.Set(id.id, uint32(i))
 	}
@@ -158,7 +160,7 @@ func (a *archetype) Remove(index uint32) bool {
 			}
 			src := unsafe.Add(lay.pointer, old*size)
 			dst := unsafe.Add(lay.pointer, index*size)
-			a.copy(src, dst, size)
+			a.copyComp(lay, id, src, dst)
 		}
 	}
 
@@ -185,6 +187,10 @@ func (a *archetype) Zero(index uint32, id ID) {
 		return
 	}
 	dst := unsafe.Add(lay.pointer, index*size)
+	if lay.hasPtr {
+		reflect.NewAt(a.compType(id), dst).Elem().SetZero()
+		return
+	}
 	a.copy(a.node.zeroPointer, dst, size)
 }
 
@@ -204,7 +210,7 @@ func (a *archetype) Set(index uint32, id ID, comp interface{}) unsafe.Pointer {
 	rValue := reflect.ValueOf(comp)
 
 	src := rValue.UnsafePointer()
-	a.copy(src, dst, size)
+	a.copyComp(lay, id, src, dst)
 	return dst
 }
 
@@ -217,7 +223,7 @@ func (a *archetype) SetPointer(index uint32, id ID, comp unsafe.Pointer) unsafe.
 		return dst
 	}
 
-	a.copy(comp, dst, size)
+	a.copyComp(lay, id, comp, dst)
 	return dst
 }
 
@@ -311,6 +317,42 @@ func (a *archetype) UpdateStats(node *stats.Node, stats *stats.Archetype, reg *c
 	stats.Size = int(a.Len())
 	stats.Capacity = cap
 	stats.Memory = memory
+}
+
+// compType returns the type of the component column for the given ID.
+func (a *archetype) compType(id ID) reflect.Type {
+	idx, _ := a.indices.Get(id.id)
+	return a.node.Types[idx]
+}
+
+// copyComp copies a component. Uses a typed copy for components that contain pointers,
+// so that the garbage collector's write barriers are respected
+// and the compiler knows that the source escapes.
+func (a *archetype) copyComp(lay *layout, id ID, src, dst unsafe.Pointer) {
+	if lay.hasPtr {
+		tp := a.compType(id)
+		reflect.NewAt(tp, dst).Elem().Set(reflect.NewAt(tp, src).Elem())
+		return
+	}
+	a.copy(src, dst, lay.itemSize)
+}
+
+// hasPointers reports whether values of the type contain pointers.
+func hasPointers(tp reflect.Type) bool {
+	switch tp.Kind() {
+	case reflect.Pointer, reflect.UnsafePointer, reflect.Map, reflect.Chan, reflect.Func,
+		reflect.Interface, reflect.Slice, reflect.String:
+		return true
+	case reflect.Array:
+		return tp.Len() > 0 && hasPointers(tp.Elem())
+	case reflect.Struct:
+		for i := 0; i < tp.NumField(); i++ {
+			if hasPointers(tp.Field(i).Type) {
+				return true
+			}
+		}
+	}
+	return false
 }
 
 // copy from one pointer to another.
